@@ -113,6 +113,8 @@ def main(argv=None):
     seed = int(os.environ.get("VERIF_SEED", "0") or 0)
 
     import logging
+    import warnings
+    warnings.filterwarnings("ignore", category=RuntimeWarning)
     logging.getLogger("pyhf").setLevel(logging.CRITICAL)
     import pyhf
     if not pyhf.__file__.startswith("/repo/src"):
